@@ -68,6 +68,13 @@ func (c *ctx) fillValue(md xsens.MeasurementData, prec int) {
 			if (prec == 1 && math.Abs(f) >= 2047) || (prec == 2 && math.Abs(f) >= 32767) {
 				f = 1234.5
 			}
+			// the ends of the fixed-point ranges (exactly representable values: the sign word 0x80.. / 0x7f..)
+			if prec == 2 && c.rng.Intn(5) == 0 {
+				f = []float64{-32768, -32767.5, -32600.25, -32512, -32511.5, 32767.5, 32512.25}[c.rng.Intn(7)]
+			}
+			if prec == 1 && c.rng.Intn(5) == 0 {
+				f = []float64{-2048, -2047.5, -2040.25, 2047.5, 2040.75}[c.rng.Intn(5)]
+			}
 			v.SetFloat(f)
 		case reflect.Uint8, reflect.Uint16, reflect.Uint32:
 			v.SetUint(uint64(c.rng.Uint32()) & (1<<(8*uint(v.Type().Size())) - 1))
